@@ -130,7 +130,7 @@ Section Delete.
           | Some b =>
               Do (OpMeta (PTail b)) (fun r1 =>
                 match r1 with
-                | RMeta _ => lock
+                | RMeta true => lock
                 | _ => Ret dfail                                 (* incomplete newest band, or error *)
                 end)
           | None => lock
